@@ -511,7 +511,8 @@ impl World {
                 record_event(EvKind::Notify);
             })
         });
-        let nucleo = Nucleo::new(config.clone(), notify, Some(threads), cols as u32);
+        // threads == 0: let the library choose (its default pool size)
+        let nucleo = Nucleo::new(config.clone(), notify, (threads > 0).then_some(threads), cols as u32);
         stream_handles_add(&reg, 0, 1); // the matcher itself reaches stream 0
         World {
             reg,
@@ -836,10 +837,18 @@ impl World {
         if readable {
             // the unchecked accessors agree
             for (k, &(_, idx)) in matches.iter().enumerate().take(64) {
-                if let Some(it) = snap.get_matched_item(k as u32) {
-                    if snap.get_item(idx).map(|x| x.data.id) != Some(it.data.id) {
-                        p("C06", "get-matched-item-disagrees", format!("match #{k}"));
+                match snap.get_matched_item(k as u32) {
+                    Some(it) => {
+                        if snap.get_item(idx).map(|x| x.data.id) != Some(it.data.id) {
+                            p("C06", "get-matched-item-disagrees", format!("match #{k}"));
+                        }
                     }
+                    None => p("C06", "get-matched-item-disagrees", format!("get_matched_item({k}) is None although there are {} matches", matches.len())),
+                }
+                // safety: the index comes from the matches of this snapshot (the documented precondition)
+                let it = unsafe { snap.get_item_unchecked(idx) };
+                if verify_payload(&it, cols).ok().map(|x| x.0) != snap.get_item(idx).map(|x| x.data.id) {
+                    p("C06", "get-item-unchecked-disagrees", format!("match #{k} index {idx}"));
                 }
             }
             let n = matches.len().min(200) as u32;
@@ -1269,6 +1278,8 @@ pub fn run_random(opts: &Opts, rep: &mut Report, props: &[&str]) {
             rng.range(1, 2)
         } else if rng.chance(1, 10) {
             hw + rng.range(1, 9)
+        } else if rng.chance(1, 14) {
+            0 // None: the library's default number of threads
         } else {
             *rng.pick(&[1usize, 2, 3, 4, 8, 16])
         };
@@ -1455,7 +1466,7 @@ pub fn run_random(opts: &Opts, rep: &mut Report, props: &[&str]) {
         w.check_quiescent(rep);
         w.check_active_injectors("quiescent");
         rep.count("histories");
-        rep.count(&format!("threads.{}", if threads > hw { "above-hardware".to_string() } else { threads.to_string() }));
+        rep.count(&format!("threads.{}", if threads > hw { "above-hardware".to_string() } else if threads == 0 { "library-default".to_string() } else { threads.to_string() }));
         hsh.add(threads as u64 * 131 + cols as u64);
         hsh.add(w.invoked.lock().unwrap().values().map(|v| *v as u64).sum::<u64>());
         rep.distinct(hsh.finish());
